@@ -190,4 +190,46 @@ def c05_excluded_iff (e : Env) (r : MakeReq) (o : Obs) : Bool :=
   let isExcluded := match o.res with | .err c => c == eCredentialExcluded | _ => false
   (isExcluded == expected) && (!isExcluded || (o.store == e.pre && !o.trace.any isEffect))
 
+
+/-! ### C08 — signature counters strictly increase and equal what the store holds -/
+
+def u32Max : Nat := 4294967295
+
+/-- the big-endian counter field of an authenticator-data encoding (bytes 33..36) -/
+def counterField (ad : Bytes) : Nat :=
+  (ad.getD 33 0).toNat * 16777216 + (ad.getD 34 0).toNat * 65536 + (ad.getD 35 0).toNat * 256 + (ad.getD 36 0).toNat
+
+def counterIn (st : List PkSnap) (cred : Bytes) : Option (Option Nat) := (st.find? (fun p => p.credId == cred)).map (·.counter)
+
+/-- registration: a credential created with a counter reports zero and stores zero; without one it
+reports zero and stores none -/
+def c08_register (e : Env) (o : Obs) : Bool :=
+  match o.res with
+  | .makeOk ad _ =>
+    counterField ad == 0
+      && o.trace.all (fun ev => match ev with
+          | .save _ _ _ ctr _ _ _ _ _ => ctr == (if e.cfg.counterOn then some 0 else none)
+          | _ => true)
+  | .panic => false
+  | _ => true
+
+/-- assertion: below the maximum the reported counter is the previous one plus one and equals the stored
+one; without a counter zero is reported and the credential is not rewritten; at the maximum nothing
+wraps and nothing crashes -/
+def c08_assert (e : Env) (o : Obs) : Bool :=
+  match o.res with
+  | .getOk cred ad _ _ _ =>
+    match counterIn e.pre cred with
+    | some (some c) =>
+      let reported := counterField ad
+      let stored := counterIn o.store cred
+      if c < u32Max then reported == c + 1 && stored == some (some (c + 1))
+      else reported ≥ c && reported ≤ u32Max && (match stored with | some (some s) => decide (s ≥ c) | _ => false)
+    | some none =>
+      counterField ad == 0 && o.store == e.pre
+        && !o.trace.any (fun ev => match ev with | .update _ _ _ => true | _ => false)
+    | none => true     -- the credential used is not in the store: another property's concern (C05)
+  | .panic => false
+  | _ => true
+
 end PasskeyVerif.Auth.Spec
